@@ -26,6 +26,9 @@ pub fn run(args: &Args) -> serde_json::Value {
     for ci in 0..n_cases {
         let mut spec = random_ising(&mut rng, 5, true);
         spec.hb = false; // the trajectory clause is for the default update pipeline
+        if ci % 6 == 5 {
+            spec.gamma = 0.0; // the classical limit is a legal input too
+        }
         if spec.h != 0.0 {
             n_h += 1
         }
